@@ -327,6 +327,11 @@ func (e *engine) build(inst int) *workflow.Workflow[Obj, st] {
 			}
 			if tc.dur < 0 {
 				e.userTok(3000000+1000*j+tc.status, &view, "t-")
+				if tc.dur == -3 {
+					// "no timer" said with a zero instant that carries a location (an unset optional field rendered in the
+					// user's zone): IsZero() holds, == time.Time{} does not
+					return time.Time{}.In(time.FixedZone("user", 7200)), nil
+				}
 				return time.Time{}, nil
 			}
 			ex := now.Add(time.Duration(tc.dur))
